@@ -194,7 +194,8 @@ def check_protocol(module: str, qualname: str, target_expr: str, content_name: s
             order.append("fchmod")
         elif isinstance(st, ast.With) and len(st.items) == 1 and ast.unparse(st.items[0].context_expr).startswith("os.fdopen(fd, 'w'") :
             inner = [ast.unparse(x) for x in st.body]
-            if inner == [f"f.write({content_name})", "f.flush()", "os.fsync(f.fileno())"]:
+            fv = ast.unparse(st.items[0].optional_vars) if st.items[0].optional_vars is not None else "f"
+            if inner == [f"{fv}.write({content_name})", f"{fv}.flush()", f"os.fsync({fv}.fileno())"]:
                 order.append("write+flush+fsync")
             else:
                 probs.append(f"write block body is {inner}")
@@ -207,7 +208,16 @@ def check_protocol(module: str, qualname: str, target_expr: str, content_name: s
                 and isinstance(inner[0], ast.With)
                 and ast.unparse(inner[0].items[0].context_expr).startswith(f"open({target_expr}, encoding='utf-8')")
                 and isinstance(inner[2], ast.If)
-                and ast.unparse(inner[2].test) == "verify_hash != base_hash"
+                and isinstance(inner[1], ast.Assign)
+                and len(inner[1].targets) == 1
+                and ast.unparse(inner[2].test) == f"{ast.unparse(inner[1].targets[0])} != base_hash"
+                and isinstance(inner[1].value, ast.Call)
+                and ast.unparse(inner[1].value.func) in ("self._compute_hash", "compute_hash")
+                and len(inner[0].body) == 1
+                and isinstance(inner[0].body[0], ast.Assign)
+                and ast.unparse(inner[1].value.args[0]) == ast.unparse(inner[0].body[0].targets[0])
+                and inner[0].items[0].optional_vars is not None
+                and ast.unparse(inner[0].body[0].value) == f"{ast.unparse(inner[0].items[0].optional_vars)}.read()"
                 and ast.unparse(inner[2].body[0]) == "os.unlink(temp_path)"
                 and isinstance(inner[2].body[-1], ast.Return)
                 and len(inner[2].body) == 2
@@ -233,7 +243,19 @@ def check_protocol(module: str, qualname: str, target_expr: str, content_name: s
         facts.append("order: fchmod(original mode) -> write, flush, fsync -> verify -> os.replace(temp, target) as the last step")
     # nothing else writes the target; original_mode from os.stat(target) & 0o777 under exists()
     src = ast.unparse(fn)
-    if f"original_stat = os.stat({target_expr})" not in src or "original_mode = original_stat.st_mode & 511" not in src:
+    mode_ok = f"original_stat = os.stat({target_expr})" in src and "original_mode = original_stat.st_mode & 511" in src
+    if not mode_ok:
+        # one level of helper: original_mode = helper(...) whose returns are `None` and `os.stat(<param>).st_mode & 0o777`
+        mm = [n for n in ast.walk(fn) if isinstance(n, ast.Assign) and ast.unparse(n.targets[0]) == "original_mode" and isinstance(n.value, ast.Call)]
+        if len(mm) == 1:
+            try:
+                h = extract.find_def(module, ast.unparse(mm[0].value.func).replace("self.", qualname.split(".")[0] + "." if "." in qualname else ""))
+                rs = sorted(ast.unparse(r.value) if r.value is not None else "None" for r in ast.walk(h) if isinstance(r, ast.Return))
+                params = [a.arg for a in h.args.args]
+                mode_ok = len(rs) == 2 and rs[0] == "None" and any(rs[1] == f"os.stat({p}).st_mode & 511" for p in params)
+            except ExtractionError:
+                mode_ok = False
+    if not mode_ok:
         probs.append("original_mode is not os.stat(target).st_mode & 0o777")
     else:
         facts.append("permission bits of an existing target are copied to the temp file before the replace")
